@@ -144,7 +144,15 @@ def gen_case(rng):
             'vals': [[bits(x) for x in row] for row in vals],
             'status': ''.join(rng.choice('-.F') for _ in range(n)) if rng.random() < 0.3 else '-' * n,
             'iters': [-1] * n, 'opts': o, 'lags': lags, 'leads': leads, 't': 0,
-            'prov': rng.choice(sc.PROVENANCES), 'write': rng.choice(['inplace', 'inplace', 'rebind'])}
+            'prov': rng.choice(sc.PROVENANCES), 'write': rng.choice(['inplace', 'inplace', 'rebind']),
+            'argform': rng.choice(['plain', 'plain', 'numpy']), 'mix': rng.choice(sc.MIXES),
+            'check_edit': rng.random() < 0.3, 'strict': rng.random() < 0.3}
+    for acts in case['script']:
+        for a in acts:
+            if a.get('k') == 'raise':
+                a['exc'] = rng.choice(sc.EXCEPTION_KINDS)
+            elif a.get('k') == 'warn':
+                a['cat'] = rng.choice(list(sc.WARNING_CATEGORIES))
     span, labels, absent = make_span(kind, n)
 
     def pick():
@@ -248,7 +256,53 @@ def oracle_solve_period(case, kind, span, labels, label, rep):
     return ra, a
 
 
+def natural_stream(ctx, rep, count):
+    """Parser-built models (lags, leads, named periods, indexed left-hand sides): the default range of solve() is
+    'the first period with enough lags through the last with enough leads', where enough is what the SCRIPT reads —
+    taken from the generator's syntax tree, not from the class's LAGS / LEADS."""
+    import gen_scripts as g
+    import fsic
+    rng = ctx.sub_rng('natural-range')
+    for i in range(count):
+        n = rng.choice([6, 7, 8, 9])
+        labels = list(range(2000, 2000 + n))
+        cfg = g.GenConfig(allow_named_periods=True, span_labels=labels, max_equations=3, max_depth=2,
+                          lhs_offsets=rng.random() < 0.3)
+        prog = g.gen_program(rng, cfg)
+        exp = g.expected_classes(prog)
+        txt = g.render(prog, g.random_layout(rng) if rng.random() < 0.3 else g.PLAIN)
+        if exp['conflict'] or exp['lags'] + exp['leads'] >= n:
+            continue
+        try:
+            Model = fsic.build_model(fsic.parse_model(txt))
+        except Exception:  # noqa: BLE001   (scripts the parser rejects are C01/C13's business)
+            rep.dist['natural-range:not-built'] += 1
+            continue
+        m = sc.with_provenance(Model, range(2000, 2000 + n), rng.choice(sc.PROVENANCES))
+        for k, v in g.random_data(rng, prog, n).items():
+            m[k] = v
+        m.status[:] = '-'           # (a used instance carries the record of its warm-up)
+        m.iterations[:] = -1
+        with warnings.catch_warnings():
+            warnings.simplefilter('ignore')
+            try:
+                labs, idx, flags = m.solve(max_iter=1, failures='ignore', errors='ignore')
+            except Exception as e:  # noqa: BLE001
+                rep.dist['natural-range:raised:' + type(e).__name__] += 1
+                continue
+        want = list(range(exp['lags'], n - exp['leads']))
+        ok = [int(x) for x in idx] == want and list(labs) == [labels[p] for p in want] and \
+            [j for j in range(n) if str(m.status[j]) != '-'] == want
+        rep.dist['natural-range:' + ('ok' if ok else 'WRONG')] += 1
+        rep.case(('natural-range', txt, n), nontrivial=exp['lags'] + exp['leads'] > 0)
+        if not ok:
+            rep.violate('default-range-natural',
+                        f'script reads lags {exp["lags"]} / leads {exp["leads"]} on {n} periods: solve() visited {list(idx)} '
+                        f'(status {"".join(map(str, m.status))}), expected {want}', {'natural': txt, 'n': n})
+
+
 def _work(ctx, rep):
+    natural_stream(ctx, rep, (400 if ctx.tier == 'quick' else 40000) * ctx.scale // ctx.parts)
     rng = ctx.sub_rng('solve')
     N = (5000 if ctx.tier == 'quick' else 800000) * ctx.scale // ctx.parts
     lines, expect = [], []
